@@ -19,6 +19,18 @@ CLAIMED = {
         note="Does not decide that tokens concatenate to the rendered text or that positions are contiguous (run-time slice arithmetic). Patterns the stdlib regex parser cannot read are over-approximated or 'unknown' (counted, capped). " + TRUST,
         design_ref="DESIGN.md §3 C01",
     ),
+    "C03": dict(
+        technique="static analysis: modular abstract interpretation (finite sets of net indents) over the expanded grammar graph of every dialect and every assignment of the indentation keys; def-use origin labelling of the inserts on every return of Sequence.match / Bracketed.match / resolve_bracket, combined with a grammar-graph reachability check per partial return",
+        text="Decides the 'indentation balance returns to zero' clause in two halves. Grammars: for every segment class reachable in each of the 28 bundled dialects and every "
+        "assignment of the indentation config keys below it, the Indent/Dedent metas of a completed match sum to zero (a non-zero class is accepted only when inlining it makes every "
+        "class that embeds it balanced on every path); repeated elements are balanced; the engine's bracket inserts are an Indent/Dedent pair. Engine: the completed return of "
+        "Sequence.match carries flushed plus remaining own metas, and a partial (greedy give-up) return may carry own metas only if no non-STRICT sequence of a bundled grammar can "
+        "make that prefix unbalanced.",
+        note="Does not decide positional containment of children, child order, non-code ends, or the never-negative running balance (incl. template block indents from the lexer). "
+        "Known finding: the ran-out-of-segments return flushes a lone Indent (`SELECT` with nothing after it). The grammar graph is obtained by importing the dialect modules of the "
+        "analysed tree (declarative definitions) in a subprocess; no SQL is lexed or parsed. " + TRUST,
+        design_ref="DESIGN.md §3 C03",
+    ),
     "C05": dict(
         technique="static analysis: loop-bound inference for index-advancing scans, reviewed table of next()/index() sites with dominance-checked guards, shape of the exception-to-violation handler in BaseRule.crawl",
         text="Decides the absence of two shapes of latent IndexError/StopIteration/ValueError in rule and reflow code: every index-advancing while/count() scan "
@@ -134,6 +146,18 @@ CLAIMED = {
         "ignore tests, that specs are matched relative to their own directory, and that no working directory is frozen at import time.",
         note="Does not decide pathspec's gitignore semantics or os.walk. " + TRUST,
         design_ref="DESIGN.md §3 C25",
+    ),
+    "C27": dict(
+        technique="static analysis: argument-provenance (derivation cones over the CFG) of the config merge calls, fresh-receiver typestate for in-place config mutators, cache-escape taint from @cache loaders with mutation summaries",
+        text="Decides three structural clauses of configuration precedence and isolation: the merge calls in load_config_up_to_path and FluffConfig.__init__ receive their "
+        "layers in precedence order by provenance (app dir, home, parents, cwd->file in the outer->inner order iter_intermediate_paths yields, extra config file; then plugin "
+        "defaults, file configs, overrides wrapped under 'core'), and child configs / from_path / from_root / the CLI forward overrides, extra_config_path and ignore_local_config; "
+        "every receiver of an in-place config mutator outside FluffConfig (inline directives, set_value) is on every path a config created for that file in the same function "
+        "(or a parameter every caller fills with one); and no dictionary owned by an @cache loader is mutated, stored in an attribute or handed to a mutating function before "
+        "passing through nested_combine/deepcopy, nested_combine itself copying every leaf.",
+        note="Does not decide value-level merge results, user-directory discovery or the parsing of ini/toml files. One reviewed exception (R27B_REVIEWED): the `render` command "
+        "applies inline directives to the linter's config on its single-shot stdin branch. " + TRUST,
+        design_ref="DESIGN.md §3 C27",
     ),
     "C34": dict(
         technique="static analysis: decorator coverage over the templater class hierarchy (core + plugins), CFG dominance of the read by the size test, handler accounting / may-raise escape analysis for SQLFluffSkipFile, exit-path guards",
